@@ -15,7 +15,7 @@ from ..world import World, run_world
 
 ID = 'C03'
 LEVEL = 'exploration'
-QUICK_SCALE = 4      # the quick tier was enlarged by this factor after MIN_OBS['quick'] was measured
+QUICK_SCALE = 10      # the quick tier was enlarged by this factor after MIN_OBS['quick'] was measured
 RULE = ("kind=matrix (exhaustive): every state x every operation (8 state methods + the 3 public manager calls) x "
         "{upload, download}, the transfer driven into the state through legal operations, downloads with a real "
         "partial file. kind=concurrent: from every state 2-3 operations issued together (gather or staggered by 0-3 "
@@ -81,7 +81,7 @@ def cases(tier: str, seed: int) -> list[dict]:
     for direction in ('DOWNLOAD', 'UPLOAD'):
         for st in states_for(direction):
             out.append({'kind': 'peer-matrix', 'direction': direction, 'state': st, 'seed': seed})
-    n_conc = 12000 if tier == 'quick' else 1500000
+    n_conc = 30000 if tier == 'quick' else 1500000
     batch = 25
     for i in range(n_conc // batch):
         out.append({'kind': 'concurrent', 'seed': seed, 'i': i, 'n': batch})
